@@ -6,6 +6,7 @@ import NeumannModel.Parse.Full
 import NeumannModel.Parse.Lex
 import NeumannModel.Parse.Text
 import NeumannModel.Parse.Clause
+import NeumannModel.Parse.Exec
 /-
   Line-protocol driver for the expression-parser model (C15).
 
@@ -74,6 +75,18 @@ import NeumannModel.Parse.Clause
                                     COND)…)`, T = `(t c<k> A)` | `(sub Q A)`, COND = `-` | `(on X)` | `(using c<k>…)`;
                                     errors / `outside` as for `sel` (expected = `expression` `identifier` `SELECT`
                                     `(` `)` `JOIN` `BY` `LAST`)
+            xsel <agg> <order> <limit> <offset> <rows>   model of the clauses QueryRouter::exec_select /
+                                    exec_select_with_joins evaluate on the answer of the direct engine call
+                                    (Exec.lean).  agg = 0|1 (aggregate / GROUP BY select: the clauses are never
+                                    reached); order = `-` | items joined by `;`, item = `<col>.<a|d>.<-|f|l>`
+                                    (ASC|DESC, no NULLS clause | NULLS FIRST | NULLS LAST); limit, offset = `-`
+                                    (absent) | `<n>` (integer literal) | `x` (any other expression); rows = `-` |
+                                    rows joined by `;`, row = `_` | cells joined by `,`, cell = `<col>=<int>|n`
+                                    (only the columns the projection kept; strings as order-isomorphic integers;
+                                    a row's identity is its position).  Answer `rows <pos>,<pos>,…` | `rows -`
+            xlist <limit> <offset> <n>   NODE LIST / EDGE LIST over an engine answer of n items: `items <pos>,…` |
+                                    `items -` | `error` (a LIMIT / OFFSET that is not an integer literal)
+            xtake <limit> <n>       FIND … WHERE … [LIMIT] / SHOW EMBEDDINGS [LIMIT]: `items …` | `error`
             ptext expr|stmt <ch>*   model of neumann_parser::parse_expr(text) / of the WHERE clause of
                                     parse("SELECT * FROM t WHERE " + text) (Text.lean = Lex ∘ tokOf ∘ Full).
                                     Answers as for `full`, with the byte offset of the token instead of an
@@ -608,9 +621,62 @@ def showTextRes : Text.TRes → String
   | .error (.invalid w p) => s!"err invalid {showInvalid w} {p}"
   | .error .fuel => "err fuel"
 
+
+/-! ### Exec.lean: clauses the router evaluates itself -/
+
+def readClause (w : String) : Option Exec.Clause :=
+  if w = "-" then some .absent else if w = "x" then some .other else w.toNat?.map Exec.Clause.lit
+
+def readOrderItem (w : String) : Option Exec.OrderItem :=
+  match w.splitOn "." with
+  | [c, d, n] =>
+    match c.toNat?, (if d = "a" then some false else if d = "d" then some true else none),
+          (if n = "-" then some none else if n = "f" then some (some true) else if n = "l" then some (some false) else none) with
+    | some c, some d, some n => some { col := c, desc := d, nulls := n }
+    | _, _, _ => none
+  | _ => none
+
+def readOrder (w : String) : Option (List Exec.OrderItem) :=
+  if w = "-" then some [] else (w.splitOn ";").mapM readOrderItem
+
+def readCell (w : String) : Option (Nat × Exec.Key) :=
+  match w.splitOn "=" with
+  | [c, v] =>
+    match c.toNat?, (if v = "n" then some none else v.toInt?.map some) with
+    | some c, some v => some (c, v)
+    | _, _ => none
+  | _ => none
+
+def readRows (w : String) : Option (List Exec.Row) :=
+  if w = "-" then some []
+  else
+    let rs := (w.splitOn ";").mapM (fun r => if r = "_" then some [] else (r.splitOn ",").mapM readCell)
+    rs.map (fun cells => (List.range cells.length).zip cells |>.map (fun p => ({ id := p.1, cells := p.2 } : Exec.Row)))
+
+def showItems (tag : String) (xs : List Nat) : String := tag ++ " " ++ showNats xs
+
 def parseStep (_ : Unit) (line : String) : Unit × String :=
   let bad := ((), "bad-op")
   match words line with
+  | ["xsel", agg, order, limit, offset, rows] =>
+      match (if agg = "0" then some false else if agg = "1" then some true else none),
+            readOrder order, readClause limit, readClause offset, readRows rows with
+      | some a, some o, some l, some f, some rs =>
+        -- aggregate selects: the harness sends the aggregate rows themselves as `rows`
+        ((), showItems "rows" ((Exec.execSelect { aggregate := a, order := o, limit := l, offset := f } rs rs).map (·.id)))
+      | _, _, _, _, _ => bad
+  | ["xlist", limit, offset, n] =>
+      match readClause limit, readClause offset, n.toNat? with
+      | some l, some f, some n =>
+        (match Exec.execList l f (List.range n) with
+          | some r => ((), showItems "items" r) | none => ((), "error"))
+      | _, _, _ => bad
+  | ["xtake", limit, n] =>
+      match readClause limit, n.toNat? with
+      | some l, some n =>
+        (match Exec.execTake l (List.range n) with
+          | some r => ((), showItems "items" r) | none => ((), "error"))
+      | _, _ => bad
   | "full" :: mode :: ws => match readMode mode, ws.mapM readFTok with
       | some md, some ts => ((), showFullRes ts.length (Full.parse md ts)) | _, _ => bad
   | "fprint" :: mode :: ws => match fextraOf mode, readFTree ws with
